@@ -36,6 +36,7 @@ HistOk(r) ==
          LET x == AddOp(r.h, r.b, RI(r.w)) IN
          /\ r.ok = x.ok
          /\ r.ok => (r.r.edges = x.h.edges /\ r.r.bins = x.h.bins /\ r.r.oor = x.h.oor)
+         /\ r.ok => IsNone(r.r.cache)             \* a new histogram: its scale was never computed
          /\ SameHist(r.a, r.h)                   \* operands unchanged (the harness logs b only if it is unchanged)
 GraphOk(r) ==
   LET x == GraphScaleOp(r.g, r.s) IN
